@@ -217,6 +217,79 @@ def t_make_model(ctx):
     ctx.cover(lab + ".reachable")
 
 
+def t_load_sources(ctx):
+    """AeRes.load_sources hands the caller's columns, renamed only, to table_to_source_list"""
+    reset_uids()
+    from contracts.arrays import SArr as _SArr
+    n = Sym(z3.Int('n_rows'))
+    ctx.assume(n >= 1)
+    user = {'ra': 'RAJ2000', 'dec': 'DEJ2000', 'peak_flux': 'Sp', 'a': 'maj', 'b': 'min', 'pa': 'ang'}
+    default = ctx.free_branch()
+    names = {k: (k if default else v) for k, v in user.items()}
+    missing = ctx.free_branch()
+    cols = {nm: _SArr.fresh("col_" + k, (n,)) for k, nm in names.items()}
+    cols['island'] = _SArr.fresh("col_island", (n,), sort='int')
+    if missing:
+        del cols[names['pa']]
+    orig = dict(cols)
+    renames = []
+
+    class Tab(PyObj):
+        typename = 'Table'
+
+        def getattr_(s, c, name):
+            if name == 'colnames':
+                return list(cols.keys())
+            if name == 'rename_column':
+                def rn(c2, old, new):
+                    if old not in cols:
+                        raise PyRaise(ExcValue('KeyError', (old,)))
+                    renames.append((old, new))
+                    items = [(new if k == old else k, v) for k, v in cols.items()]
+                    cols.clear()
+                    cols.update(items)
+                return Model(rn, 'rename_column')
+            raise Undecided("Table." + name)
+
+        def getitem_(s, c, k):
+            if k in cols:
+                return cols[k]
+            raise PyRaise(ExcValue('KeyError', (k,)))
+
+        def setitem_(s, c, k, v):
+            cols[k] = v
+
+        def len_(s, c):
+            return n
+    tab = Tab()
+    got = {}
+
+    def t2s(c, t, **kw):
+        got['table'] = t
+        got['cols'] = dict(cols)
+        return Obj('source list')
+    np_ = lib.std_np()
+    g = {'catalogs': Namespace('catalogs', load_table=Model(lambda c, f: tab), table_to_source_list=Model(t2s)),
+         'logging': Namespace('logging'), 'np': np_, 'len': Model(lambda c, x: n)}
+    kw = {} if default else {'ra_col': names['ra'], 'dec_col': names['dec'], 'peak_col': names['peak_flux'], 'a_col': names['a'],
+                             'b_col': names['b'], 'pa_col': names['pa']}
+    out = run_function(ctx, FILE, 'load_sources', ['cat.fits'], kw, globals_=g)
+    if out.kind != 'return':
+        ctx.oblige("safe", "load_sources.no_exception", False)
+        return
+    if missing:
+        ctx.oblige("post", "load_sources.missing_column_gives_none_without_reading", out.value is None and 'table' not in got)
+        return
+    ok = got.get('table') is tab
+    ctx.oblige("post", "load_sources.the_loaded_table_goes_to_table_to_source_list", ok)
+    if not ok:
+        return
+    final = got['cols']
+    ctx.oblige("post", "load_sources.each_standard_column_holds_the_data_of_the_callers_column_unchanged",
+               all(final.get(std) is orig[names[std]] and not final[std].writes for std in user))
+    ctx.oblige("post", "load_sources.other_columns_untouched", final.get('island') is orig['island'] and not orig['island'].writes)
+
+
 def t_constants(ctx):
     """FWHM2CC = 1 / CC2FHWM, CC2FHWM = 2 sqrt(2 ln 2)"""
     env = Env({'math': lib.std_math(), 'np': lib.std_np()})
@@ -285,7 +358,8 @@ def t_make_residual(ctx):
 
 
 def verify(S):
-    for name, fn in (("AeRes.make_model", t_make_model), ("AeRes.constants", t_constants), ("AeRes.make_residual", t_make_residual)):
+    for name, fn in (("AeRes.make_model", t_make_model), ("AeRes.constants", t_constants), ("AeRes.make_residual", t_make_residual),
+                     ("AeRes.load_sources", t_load_sources)):
         if S.only and S.only not in name:
             continue
         ctx = Ctx(S, name)
